@@ -795,13 +795,19 @@ func (cc *Conn) handleReq(w *responsewriter.ResponseWriter[*Conn], req *pool.Mes
 
 	// The same message ID can not be handled concurrently
 	// for deduplication to work
-	l, locked := cc.msgIDMutex.TryLock(reqMid)
+	lockKey := reqMid
+	if req.Type() == message.Acknowledgement || req.Type() == message.Reset {
+		// acknowledgements and resets carry message IDs of this endpoint's own ID space, which is
+		// unrelated to the ID space of the peer's requests
+		lockKey |= 1 << 16
+	}
+	l, locked := cc.msgIDMutex.TryLock(lockKey)
 	if !locked {
 		// Another copy of this message is being handled right now, possibly by a handler that
 		// itself waits for a message from the peer: do not hold up the receive queue while
 		// waiting for it to finish.
 		cc.receivedMessageReader.TryToReplaceLoop()
-		l = cc.msgIDMutex.Lock(reqMid)
+		l = cc.msgIDMutex.Lock(lockKey)
 	}
 	defer l.Unlock()
 
